@@ -18,6 +18,8 @@ CONSTANTS
   FoldExcluded = TRUE
   DirReplyLocks = TRUE
   ScanDirCycles = TRUE
+  AlwaysAccumulate = FALSE
+  FlagsTakenAtStart = TRUE
   RevertWithinTick = TRUE
 INVARIANT TypeOK
 INVARIANT HolderIsInnermost
